@@ -158,7 +158,23 @@ Definition order (o : bop) (a b : value) : ev :=
                       end))
       | None => Unspec
       end
-  | _, _ => if N.eqb (kind_class a) (kind_class b) then Unspec else Err   (* no ordering across kinds *)
+  | _, _ =>
+      if N.eqb (kind_class a) (kind_class b) then
+        (* two arrays, two strings, two booleans: the order of C15 (arrays element-wise, so a pair of
+           elements that is not ordered makes the whole comparison an error, never a coerced result) *)
+        match a, b with
+        | VArr _, VArr _ | VStr _ _, VStr _ _ | VBool _, VBool _ =>
+            match Order.vpcmp a b with
+            | Some c =>
+                Val (VBool (match o, c with
+                            | OLt, Lt | OLe, Lt | OLe, Eq | OGt, Gt | OGe, Gt | OGe, Eq => true
+                            | _, _ => false
+                            end))
+            | None => Err
+            end
+        | _, _ => Unspec
+        end
+      else Err   (* no ordering across kinds *)
   end.
 
 Definition equality (neg : bool) (a b : value) : ev :=
